@@ -1,13 +1,3 @@
-(* PENDING FILE — not part of the build of this tree.
-   It needs Forest/TerminationDefs.v + Forest/TerminationRun.v (termination of the
-   table method, built in the C03-termination working copy).  Once those are merged:
-   rename this file to PositionalTotal.v, run ./check --setup, and add to Props/C11.v
-     Theorem C11_minimal_one_rule_per_class_total : <statement of minimal_one_rule_per_class_total>.
-     Proof. exact minimal_one_rule_per_class_total. Qed.
-     Theorem C11_one_rule_per_class_total : <statement of extract_one_rule_per_class_total, with buckets_ok ks>.
-     Proof. exact extract_one_rule_per_class_total. Qed.
-   Compiled against /root/work/C03t/coq on 2026-10-02: both Print Assumptions answer
-   "Closed under the global context" (no classic). *)
 (* Axiom-free versions of the theorems of Positional.v / PositionalExtractor.v:
    termination of the table method (Forest/TerminationRun.v, run_total_spec)
    decides, for every key list, whether a class pumps or has exactly n terms,
